@@ -166,3 +166,30 @@ Example fence_in_content :
      [[96;96;96;112;121]; [96;96;96]; [120]; [96;96;96;96]]))        (* ```py / ``` / x / ```` : not what the renderer writes *)
   = Some (Fenced 96 3 [112;121] [], [[120]; [96;96;96;96]]).
 Proof. reflexivity. Qed.
+
+(* ---- every container: the content lines are written one by one under the continuation prefix,
+   verbatim, and an empty content line is written as the prefix without its trailing whitespace
+   (C04: lines verbatim; C12: no trailing spaces added to blank code lines) ---- *)
+Definition written_line (p2 : str) (l : str) : str := match l with [] => rstrip p2 | _ => p2 ++ l end.
+
+Theorem code_block_lines lang extra fc flen content st :
+  fst (render_code lang extra fc flen content st)
+  = join [nlc] ((r_prefix st ++ repeat fc (fence_len fc flen content) ++ info_sep fc (info_of lang extra) ++ info_of lang extra)
+                :: map (written_line (r_prefix2 st)) (code_lines content)
+                ++ [r_prefix2 st ++ repeat fc (fence_len fc flen content)]) ++ [nlc].
+Proof.
+  unfold render_code. cbv zeta. destruct st as [p p2 su sk cu ti]. cbn [r_prefix r_prefix2 set_skip fst].
+  unfold fence_len, code_lines, info_of, info_sep, written_line. reflexivity.
+Qed.
+
+Lemma lstrip_idem y : lstrip (lstrip y) = lstrip y.
+Proof.
+  induction y as [|c r IH]; [reflexivity|]. cbn [lstrip]. destruct (is_space c) eqn:E; [exact IH|].
+  cbn [lstrip]. now rewrite E.
+Qed.
+Lemma rstrip_idem x : rstrip (rstrip x) = rstrip x.
+Proof. unfold rstrip. rewrite rev_involutive, lstrip_idem. reflexivity. Qed.
+
+(* the line written for an empty content line ends in no whitespace: stripping it again changes nothing *)
+Theorem blank_code_line_has_no_trailing_space p2 : rstrip (written_line p2 []) = written_line p2 [].
+Proof. apply rstrip_idem. Qed.
